@@ -3,6 +3,19 @@
 From Coq Require Import Sorted.
 From AG Require Import Base.Prelude Base.Res Base.Bytes Codec.Adc Codec.Pwb Codec.Pwb_proofs Gen.Boards Ident.Tables.
 
+(* ---- exactness ---- *)
+(* For ANY table of known MAC addresses, both overflow modes and every byte list:
+   accepted  <->  the field rules hold and the bytes are the documented little-endian layout of the fields:
+   version 2, chip 'A' + 0..3, compression 0, trigger source 0/1/3, known MAC, delay, 48-bit timestamp, two zero
+   bytes, last SCA cell and requested samples <= 511, the two 80-bit masks of the channel lists (channels of the
+   chip in strictly ascending readout order, hence bit 79 clear), event counter, FIFO depths, then one block per sent
+   channel in that order -- readout index, sample count, samples, two zero bytes iff the count is odd -- and the
+   end marker CC CC CC CC with nothing after it.  Re-encoding the decoded fields reproduces the input. *)
+Theorem C05_pwb_exact : forall macs m l f, bytes l ->
+  (pwb_decode macs m l = Ok f <-> pwb_fields_ok macs f /\ l = pwb_encode f).
+Proof. exact pwb_exact_lemma. Qed.
+Print Assumptions C05_pwb_exact.
+
 (* ---- the mask loop (padwing.rs:1390-1394) ---- *)
 (* For every u128 and both overflow modes the leading_zeros loop with fuel 128 terminates without panic and pushes
    exactly the set bits, highest first (the code then reverses: ascending).  [mask_bits num n] is
